@@ -250,6 +250,12 @@ func generateLoop(l *ast.AstLoop, offset int, state *GenState) ([]SearchInstruct
 	current_offset := offset
 	if l.Min > 0 && l.Name == "" {
 		for i := 0; i < l.Min; i++ {
+			// every unrolled copy declares the captures of the body again: they are the same variables
+			// (the last iteration wins), not a name clash
+			declaredBefore := make(map[string]bool)
+			for name := range state.variables {
+				declaredBefore[name] = true
+			}
 			// I kinda hate generating this everytime but I also hate the other way where we have to adjust offset values to keep pointers in the body lined up
 			body, gen_error := generateSearchInstruction(&l.Body, current_offset, state)
 			if gen_error != nil {
@@ -257,6 +263,13 @@ func generateLoop(l *ast.AstLoop, offset int, state *GenState) ([]SearchInstruct
 			}
 			result = append(result, body...)
 			current_offset += len(body)
+			if i < l.Min-1 || l.Min != l.Max {
+				for name, kind := range state.variables {
+					if kind == -1 && !declaredBefore[name] {
+						delete(state.variables, name)
+					}
+				}
+			}
 		}
 	}
 
